@@ -193,10 +193,19 @@ def prune_cache(max_bytes=3 * 1024 ** 3):
 # Coq / OCaml side
 # ------------------------------------------------------------------------------------------------
 
+def regenerate_models():
+    """the .v files that are translated from /repo's current source (rewritten only when their content changes)"""
+    for script in ("translate_params.py",):
+        sp = os.path.join(HARNESS, script)
+        if os.path.exists(sp):
+            run([sys.executable, sp, REPO])
+
+
 def coq_make(targets=(), timeout=1500):
     """(re)build Coq targets (full .vo).  Returns (ok, output)."""
     # the Makefile is generated from the files of _CoqProject that exist (a proof file still being written must not
     # block the others)
+    regenerate_models()
     lines = [l.strip() for l in read(os.path.join(COQ, "_CoqProject"), "r").split("\n") if l.strip()]
     keep = [l for l in lines if not l.endswith(".v") or os.path.exists(os.path.join(COQ, l))]
     gen = "\n".join(keep) + "\n"
